@@ -185,7 +185,8 @@ func seqSort(elem string) string { return "Seq_" + sanitize(elem) }
 
 func (d *Decls) ensureSeq(elem string) string {
 	s := seqSort(elem)
-	d.ensureSort(s, fmt.Sprintf("(declare-datatypes ((%s 0)) (((mk_%s (arr_%s (Array Int %s)) (len_%s Int)))))", s, s, s, elem, s))
+	// a slice value: contents, length, and two ghost components - capacity and the identity of its backing array
+	d.ensureSort(s, fmt.Sprintf("(declare-datatypes ((%s 0)) (((mk_%s (arr_%s (Array Int %s)) (len_%s Int) (cap_%s Int) (bk_%s Ref)))))", s, s, s, elem, s, s, s))
 	return s
 }
 
@@ -332,7 +333,7 @@ func (d *Decls) zeroOfSort(s string, t types.Type) string {
 		if et == nil {
 			panic(unsupported("zero of seq without type " + s))
 		}
-		return fmt.Sprintf("(mk_%s %s 0)", s, d.constArray(d.sortOf(et), d.zeroOf(et)))
+		return fmt.Sprintf("(mk_%s %s 0 0 nil)", s, d.constArray(d.sortOf(et), d.zeroOf(et)))
 	}
 	if strings.HasPrefix(s, "(Array Int ") {
 		if t != nil {
